@@ -330,12 +330,21 @@ def r6(rr, repo):
     rr.floor('initialisations of do_send', n, 1, za.mod, za.S_poll)
     # a permission that was decided while a client was still in the table does not survive that client's CLOSE (it may have been a required output, or the
     # only client of a balanced output): the CLOSE path, which returns without re-evaluating the table, withdraws it
-    dels = [n_ for n_ in ast.walk(za.S_poll) if isinstance(n_, ast.Delete) and any('clients[' in U(t) for t in n_.targets) and any('MSG_ID_CLOSE' in U(t) for t, pol in q.guards_of(n_, stop=za.S_poll) if pol)]
+    dels = [n_ for n_ in ast.walk(za.S_poll) if isinstance(n_, ast.Delete) and any('clients[' in U(t) for t in n_.targets) and any('MSG_ID_CLOSE' in U(t) for t, pol in q.guards_of(n_, stop=za.S_poll) if pol)] + \
+           [c for c in q.calls_in(za.S_poll) if isinstance(c.func, ast.Attribute) and c.func.attr == 'pop' and U(c.func.value) in ('clients', 'self.clients') and any('MSG_ID_CLOSE' in U(t) for t, pol in q.guards_of(c, stop=za.S_poll) if pol)]
     rr.floor('client removals on the CLOSE path of poll_recv', len(dels), 1, za.mod, za.S_poll)
     for d in dels:
-        _, lst, idx = stmt_list_containing(d)
-        withdrawn = any(isinstance(x, ast.Assign) and U(x.targets[0]) == 'do_send' and U(x.value) == 'False' for x in lst[idx + 1:])
-        recomputed = any(isinstance(x, ast.Assign) and U(x.targets[0]) == 'do_send' and 'outs_required' in U(x.value) for x in lst[idx + 1:])
+        # the statements that follow the removal: after `del clients[k]` in its block, or inside the `if (client := clients.pop(k, None)) is not None:` the pop decides
+        st_ = q.enclosing_stmt(d)
+        if isinstance(st_, ast.If) and any(x is d for x in ast.walk(st_.test)):
+            follow = list(st_.body)
+        else:
+            _, lst, idx = stmt_list_containing(d)
+            follow = lst[idx + 1:]
+        wd = [x for f_ in follow for x in ast.walk(f_) if isinstance(x, ast.Assign) and U(x.targets[0]) == 'do_send' and U(x.value) == 'False']
+        # withdrawn at least whenever the client that left was a synchronized one (a listener never gated the send)
+        withdrawn = any(all((not pol and 'ephemeral' in U(t)) or (pol and 'not' in U(t) and 'ephemeral' in U(t)) for t, pol in q.guards_of(x, stop=st_ if isinstance(st_, ast.If) else za.S_poll) if x is not None and not any(y is d for y in ast.walk(t))) for x in wd) if wd else False
+        recomputed = any(isinstance(x, ast.Assign) and U(x.targets[0]) == 'do_send' and 'outs_required' in U(x.value) for f_ in follow for x in ast.walk(f_))
         rr.ob('removing a client on CLOSE withdraws (or re-evaluates) the permission to send that was decided while it was there', withdrawn or recomputed, za.mod, d,
               witness='do_send = False after the removal' if withdrawn else 're-evaluated' if recomputed else 'the CLOSE path leaves do_send as the previous request left it', key='close-withdraws-permission')
     # "connected" excludes a client this very round is about to time out: the set the required ids are looked up in is built from clients whose last request is
